@@ -296,4 +296,690 @@ theorem C12_check_eq_spec (isId : Char → Bool) (x : Expander) (t : List Char) 
     check isId x t r = checkSteps r (specSteps isId x t) := by
   rw [check, C12_steps_eq_spec]
 
+/-! ## 3. The documented token forms, one by one -/
+
+section Tokens
+variable (isId : Char → Bool) (x : Expander)
+
+theorem specSteps_cons (c : Char) (tail : List Char) :
+    specSteps isId x (c :: tail) =
+      if c = x.subChar then (specRef isId x tail).1 ++ specSteps isId x (specRef isId x tail).2
+      else .char c :: specSteps isId x tail := by
+  rw [specSteps]
+
+/-- **anything else is copied verbatim**: a character other than the substitution character -/
+theorem C12_literal (c : Char) (t : List Char) (h : c ≠ x.subChar) :
+    steps isId x (c :: t) = .char c :: steps isId x t := by
+  rw [C12_steps_eq_spec, C12_steps_eq_spec, specSteps_cons, if_neg h]
+
+theorem steps_sub (tail : List Char) :
+    steps isId x (x.subChar :: tail) =
+      (specRef isId x tail).1 ++ steps isId x (specRef isId x tail).2 := by
+  rw [C12_steps_eq_spec, C12_steps_eq_spec, specSteps_cons, if_pos rfl]
+
+theorem steps_nil : steps isId x [] = [] := by simp [steps, exec]
+
+theorem expansion_of_steps {t t' : List Char} {pre : List Step}
+    (h : steps isId x t = pre ++ steps isId x t') (caps : Caps) :
+    expansion isId x t caps = pre.flatMap (stepOut caps) ++ expansion isId x t' caps := by
+  simp [expansion, h]
+
+/-- a run `a` of characters satisfying `p`, followed by text that does not continue it, is exactly
+    the longest `p`-prefix -/
+theorem run_split (p : Char → Bool) (a b : List Char) (ha : ∀ c ∈ a, p c = true)
+    (hb : ∀ c, b.head? = some c → p c = false) :
+    (a ++ b).takeWhile p = a ∧ (a ++ b).dropWhile p = b := by
+  induction a with
+  | nil =>
+    cases b with
+    | nil => simp
+    | cons c cs =>
+      have := hb c rfl
+      simp [this]
+  | cons c cs ih =>
+    have hc : p c = true := ha c (by simp)
+    have := ih (fun d hd => ha d (by simp [hd]))
+    simp [hc, this.1, this.2]
+
+theorem takeWhile_eq_nil_of_head (p : Char → Bool) (s : List Char)
+    (h : ∀ c, s.head? = some c → p c = false) : s.takeWhile p = [] := by
+  cases s with
+  | nil => rfl
+  | cons c cs => simp [h c rfl]
+
+/-- what is after the substitution character is not a reference: not a second substitution
+    character, not `open name close`, not a bare name (if those are allowed), not a number -/
+def NotRef (tail : List Char) : Prop :=
+  tail.head? ≠ some x.subChar ∧ bracedRef isId x tail = none ∧
+    (x.allowUndelimited = true → bareRef isId tail = none) ∧ numRef tail = none
+
+theorem specRef_esc (t : List Char) :
+    specRef isId x (x.subChar :: t) = ([.char x.subChar], t) := by
+  simp [specRef]
+
+theorem specRef_braced {d : Char} {rest name r : List Char} (hd : d ≠ x.subChar)
+    (hb : bracedRef isId x (d :: rest) = some (name, r)) :
+    specRef isId x (d :: rest) = ([.groupName name], r) := by
+  simp [specRef, hd, hb]
+
+theorem specRef_bare {d : Char} {rest name r : List Char} (hd : d ≠ x.subChar)
+    (hb : bracedRef isId x (d :: rest) = none) (hal : x.allowUndelimited = true)
+    (hu : bareRef isId (d :: rest) = some (name, r)) :
+    specRef isId x (d :: rest) = ([.groupName name], r) := by
+  simp [specRef, hd, hb, hal, hu]
+
+theorem specRef_num {d : Char} {rest r : List Char} {n : Nat} (hd : d ≠ x.subChar)
+    (hb : bracedRef isId x (d :: rest) = none)
+    (hu : x.allowUndelimited = true → bareRef isId (d :: rest) = none)
+    (hn : numRef (d :: rest) = some (n, r)) :
+    specRef isId x (d :: rest) = ([.groupNum n], r) := by
+  cases hal : x.allowUndelimited with
+  | true => simp [specRef, hd, hb, hal, hu hal, hn]
+  | false => simp [specRef, hd, hb, hal, hn]
+
+theorem specRef_bad {tail : List Char} (h : NotRef isId x tail) :
+    specRef isId x tail = ([.error, .char x.subChar], tail) := by
+  obtain ⟨h1, h2, h3, h4⟩ := h
+  cases tail with
+  | nil => simp [specRef]
+  | cons d rest =>
+    have hd : d ≠ x.subChar := by
+      intro hd; apply h1; simp [hd]
+    cases hal : x.allowUndelimited with
+    | true => simp [specRef, hd, h2, hal, h3 hal, h4]
+    | false => simp [specRef, hd, h2, hal, h4]
+
+/-- `$$` is a literal `$` (any expander), anywhere in a template -/
+theorem C12_escaped (t : List Char) :
+    steps isId x (x.subChar :: x.subChar :: t) = .char x.subChar :: steps isId x t := by
+  rw [steps_sub, specRef_esc]; rfl
+
+/-- a substitution character followed by something that is not a reference is copied
+    (and reported as `Step.error`, which `check` turns into a parse error) -/
+theorem C12_not_reference (tail : List Char) (h : NotRef isId x tail) :
+    steps isId x (x.subChar :: tail) = .error :: .char x.subChar :: steps isId x tail := by
+  rw [steps_sub, specRef_bad isId x h]; rfl
+
+theorem refAt_mk (o k name t : List Char) (hne : name ≠ []) (hid : ∀ c ∈ name, isId c = true)
+    (hfollow : ∀ c, (k ++ t).head? = some c → isId c = false) :
+    refAt isId o k (o ++ name ++ k ++ t) = some (name, t) := by
+  have hs := run_split isId name (k ++ t) hid hfollow
+  unfold refAt
+  simp only [List.append_assoc, stripPrefix_append, hs.1, hs.2, hne, ↓reduceIte]
+
+theorem refAt_none_of_head (o : Char) (os k : List Char) (d : Char) (rest : List Char) (h : o ≠ d) :
+    refAt isId (o :: os) k (d :: rest) = none := by
+  simp [refAt, stripPrefix, h]
+
+/-- the name of a delimited reference: not empty, identifier characters only, and the delimiters
+    are not empty, the opening one not starting with the substitution character, the closing one
+    not with an identifier character (the `debug_assert!`s of `exec` and `parse_id`) -/
+def IsBraced (name : List Char) : Prop :=
+  (∃ o os, x.openD = o :: os ∧ o ≠ x.subChar) ∧ (∃ k ks, x.closeD = k :: ks ∧ isId k = false) ∧
+    name ≠ [] ∧ ∀ c ∈ name, isId c = true
+
+/-- **`${name}` / `\g<name>`** (any expander): the group named `name`, then the rest -/
+theorem C12_braced_gen (name t : List Char) (h : IsBraced isId x name) :
+    steps isId x (x.subChar :: x.openD ++ name ++ x.closeD ++ t) =
+      .groupName name :: steps isId x t := by
+  obtain ⟨⟨o, os, ho, hos⟩, ⟨k, ks, hk, hkid⟩, hne, hid⟩ := h
+  have hb : bracedRef isId x (x.openD ++ name ++ x.closeD ++ t) = some (name, t) := by
+    apply refAt_mk isId _ _ _ _ hne hid
+    intro c hc
+    rw [hk] at hc
+    simp only [List.cons_append, List.head?_cons, Option.some.injEq] at hc
+    rw [← hc]; exact hkid
+  have hshape : x.openD ++ name ++ x.closeD ++ t = o :: (os ++ name ++ x.closeD ++ t) := by
+    rw [ho]; simp
+  simp only [List.cons_append]
+  rw [steps_sub]
+  rw [hshape] at hb ⊢
+  rw [specRef_braced isId x hos hb]; rfl
+
+/-- a bare name: allowed by the expander, not empty, identifier characters only; the
+    substitution character and the first character of the opening delimiter are not identifier
+    characters (true of `Expander::default()` with the real `is_id_char`) -/
+def IsBare (name : List Char) : Prop :=
+  x.allowUndelimited = true ∧ isId x.subChar = false ∧ (∃ o os, x.openD = o :: os ∧ isId o = false) ∧
+    name ≠ [] ∧ ∀ c ∈ name, isId c = true
+
+/-- **`$name` takes the LONGEST run of identifier characters** (any expander allowing bare names):
+    if `name` is followed by the end of the template or a non-identifier character, the token is
+    the group named `name` -/
+theorem C12_longest_id_gen (name rest : List Char) (h : IsBare isId x name)
+    (hfollow : ∀ c, rest.head? = some c → isId c = false) :
+    steps isId x (x.subChar :: name ++ rest) = .groupName name :: steps isId x rest := by
+  obtain ⟨hal, hsub, ⟨o, os, ho, hoid⟩, hne, hid⟩ := h
+  obtain ⟨n, ns, rfl⟩ := List.exists_cons_of_ne_nil hne
+  have hn : isId n = true := hid n (by simp)
+  have hd : n ≠ x.subChar := by
+    intro e; rw [e, hsub] at hn; cases hn
+  have hon : o ≠ n := by
+    intro e; rw [e, hn] at hoid; cases hoid
+  have hs := run_split isId (n :: ns) rest hid hfollow
+  simp only [List.cons_append] at hs ⊢
+  rw [steps_sub]
+  have hu : bareRef isId (n :: (ns ++ rest)) = some (n :: ns, rest) := by
+    simp only [bareRef, hs.1, hs.2]; simp
+  rw [specRef_bare isId x hd (by rw [bracedRef, ho]; exact refAt_none_of_head isId _ _ _ _ _ hon) hal hu]
+  rfl
+
+/-- a number: bare names are not allowed (the Python expander), digits only, not empty, a `usize`;
+    the substitution character and the opening delimiter do not start with a digit -/
+def IsNum (ds : List Char) : Prop :=
+  x.allowUndelimited = false ∧ isDigit x.subChar = false ∧
+    (∃ o os, x.openD = o :: os ∧ isDigit o = false) ∧
+    ds ≠ [] ∧ (∀ c ∈ ds, isDigit c = true) ∧ digitsVal ds ≤ UNSET
+
+/-- **`\N` takes the LONGEST digit run** (any expander without bare names) -/
+theorem C12_num_gen (ds rest : List Char) (h : IsNum x ds)
+    (hfollow : ∀ c, rest.head? = some c → isDigit c = false) :
+    steps isId x (x.subChar :: ds ++ rest) = .groupNum (digitsVal ds) :: steps isId x rest := by
+  obtain ⟨hal, hsub, ⟨o, os, ho, hoid⟩, hne, hid, hval⟩ := h
+  obtain ⟨n, ns, rfl⟩ := List.exists_cons_of_ne_nil hne
+  have hn : isDigit n = true := hid n (by simp)
+  have hd : n ≠ x.subChar := by
+    intro e; rw [e, hsub] at hn; cases hn
+  have hon : o ≠ n := by
+    intro e; rw [e, hn] at hoid; cases hoid
+  have hs := run_split isDigit (n :: ns) rest hid hfollow
+  simp only [List.cons_append] at hs ⊢
+  rw [steps_sub]
+  have hnum : numRef (n :: (ns ++ rest)) = some (digitsVal (n :: ns), rest) := by
+    simp only [numRef, hs.1, hs.2]
+    rw [if_neg]
+    intro hc
+    rcases hc with hc | hc
+    · cases hc
+    · omega
+  rw [specRef_num isId x hd (by rw [bracedRef, ho]; exact refAt_none_of_head isId _ _ _ _ _ hon)
+    (by simp [hal]) hnum]
+  rfl
+
+theorem stripPrefix_none_of_head (k : Char) (ks s : List Char) (h : s.head? ≠ some k) :
+    stripPrefix (k :: ks) s = none := by
+  cases s with
+  | nil => rfl
+  | cons c cs =>
+    have : k ≠ c := by intro e; apply h; simp [e]
+    simp [stripPrefix, this]
+
+/-- literal text (no substitution character) is copied character by character, whatever follows -/
+theorem C12_literal_run (a b : List Char) (ha : ∀ c ∈ a, c ≠ x.subChar) :
+    steps isId x (a ++ b) = a.map Step.char ++ steps isId x b := by
+  induction a with
+  | nil => rfl
+  | cons c cs ih =>
+    rw [List.cons_append, C12_literal isId x c _ (ha c (by simp)), ih (fun d hd => ha d (by simp [hd]))]
+    rfl
+
+/-- **an opening delimiter that is not followed by `name close` is not a reference** (any
+    expander): empty name, a character that is not an identifier character before the closing
+    delimiter, or no closing delimiter -/
+theorem C12_unclosed_gen (o : Char) (os body : List Char) (ho : x.openD = o :: os)
+    (hsub : o ≠ x.subChar) (hdig : isDigit o = false) (hbare : x.allowUndelimited = true → isId o = false)
+    (hbad : body.takeWhile isId = [] ∨ stripPrefix x.closeD (body.dropWhile isId) = none) :
+    steps isId x (x.subChar :: x.openD ++ body) =
+      .error :: .char x.subChar :: steps isId x (x.openD ++ body) := by
+  simp only [List.cons_append]
+  apply C12_not_reference
+  refine ⟨?_, ?_, ?_, ?_⟩
+  · rw [ho]; simp; exact fun e => hsub e
+  · unfold bracedRef refAt
+    rw [stripPrefix_append]
+    rcases hbad with h | h
+    · simp [h]
+    · by_cases hn : body.takeWhile isId = []
+      · simp [hn]
+      · simp [hn, h]
+  · intro hal
+    rw [ho]
+    simp [bareRef, hbare hal]
+  · rw [ho]
+    simp [numRef, hdig]
+
+end Tokens
+
+/-! ## 4. The two documented expanders, in the words of the property -/
+
+section Documented
+variable (isId : Char → Bool)
+
+/-- **`$name` takes the LONGEST run of identifier characters** (`Expander::default()`): if `id` is a
+    non-empty run of identifier characters and `rest` is empty or starts with a non-identifier
+    character, `$id rest` is the group `id` followed by `rest`. (For an all-digit `id` this is the
+    documented `$N`: see `C12_numbered_name`.) The hypotheses on `$` and `{` hold of `is_id_char`. -/
+theorem C12_longest_id (id rest : List Char) (hsub : isId '$' = false) (hopen : isId '{' = false)
+    (hne : id ≠ []) (hid : ∀ c ∈ id, isId c = true)
+    (hfollow : ∀ c, rest.head? = some c → isId c = false) :
+    steps isId dollar ('$' :: id ++ rest) = .groupName id :: steps isId dollar rest :=
+  C12_longest_id_gen isId dollar id rest ⟨rfl, hsub, ⟨'{', [], rfl, hopen⟩, hne, hid⟩ hfollow
+
+theorem C12_longest_id_expansion (id rest : List Char) (caps : Caps) (hsub : isId '$' = false)
+    (hopen : isId '{' = false) (hne : id ≠ []) (hid : ∀ c ∈ id, isId c = true)
+    (hfollow : ∀ c, rest.head? = some c → isId c = false) :
+    expansion isId dollar ('$' :: id ++ rest) caps =
+      stepOut caps (.groupName id) ++ expansion isId dollar rest caps := by
+  have h := C12_longest_id isId id rest hsub hopen hne hid hfollow
+  have := expansion_of_steps isId dollar (pre := [.groupName id]) h caps
+  simpa using this
+
+/-- a name made of digits that is not the name of a group is the group with that NUMBER
+    (`$N`, `${N}`, `\g<N>`); an absent / unmatched group or a number above `usize::MAX` inserts nothing -/
+theorem C12_numbered_name (caps : Caps) (id : List Char) (hne : id ≠ [])
+    (hd : ∀ c ∈ id, isDigit c = true) (hv : digitsVal id ≤ UNSET) (hname : caps.name id = none) :
+    stepOut caps (.groupName id) = (caps.get (digitsVal id)).getD [] := by
+  have hall : id.all isDigit = true := List.all_eq_true.mpr hd
+  have hemp : id.isEmpty = false := by cases id with
+    | nil => exact absurd rfl hne
+    | cons _ _ => rfl
+  have : parseUsize id = some (digitsVal id) := by
+    unfold parseUsize
+    simp only [hemp, hall, Bool.not_true, Bool.or_self, Bool.false_eq_true, ↓reduceIte]
+    rw [if_neg (by omega)]
+  simp only [stepOut, hname, this, Option.bind_some]
+  cases caps.get (digitsVal id) <;> rfl
+
+/-- **`${name}`** (`Expander::default()`): a non-empty run of identifier characters between the
+    braces is the group of that name -/
+theorem C12_braced (name t : List Char) (hclose : isId '}' = false)
+    (hne : name ≠ []) (hid : ∀ c ∈ name, isId c = true) :
+    steps isId dollar ('$' :: '{' :: name ++ '}' :: t) = .groupName name :: steps isId dollar t := by
+  have := C12_braced_gen isId dollar name t
+    ⟨⟨'{', [], rfl, by decide⟩, ⟨'}', [], rfl, hclose⟩, hne, hid⟩
+  simpa [dollar] using this
+
+/-- **an unclosed / malformed brace is copied verbatim** (`Expander::default()`): `${` followed by
+    an empty name, or by a name that is not directly followed by `}` -/
+theorem C12_braced_unclosed (body : List Char) (hopen : isId '{' = false)
+    (hbad : body.takeWhile isId = [] ∨ (body.dropWhile isId).head? ≠ some '}') :
+    steps isId dollar ('$' :: '{' :: body) =
+      .error :: .char '$' :: .char '{' :: steps isId dollar body := by
+  have := C12_unclosed_gen isId dollar '{' [] body rfl (by decide) (by decide) (fun _ => hopen)
+    (hbad.imp id (stripPrefix_none_of_head '}' [] _))
+  rw [← C12_literal isId dollar '{' body (by decide)]
+  simpa [dollar] using this
+
+theorem C12_braced_unclosed_expansion (body : List Char) (caps : Caps) (hopen : isId '{' = false)
+    (hbad : body.takeWhile isId = [] ∨ (body.dropWhile isId).head? ≠ some '}') :
+    expansion isId dollar ('$' :: '{' :: body) caps = '$' :: '{' :: expansion isId dollar body caps := by
+  have h := C12_braced_unclosed isId body hopen hbad
+  have := expansion_of_steps isId dollar (pre := [.error, .char '$', .char '{']) h caps
+  simpa [stepOut] using this
+
+/-- **`\g<name>` / `\g<N>`** (`Expander::python()`) -/
+theorem C12_python_named (name t : List Char) (hclose : isId '>' = false)
+    (hne : name ≠ []) (hid : ∀ c ∈ name, isId c = true) :
+    steps isId python ('\\' :: 'g' :: '<' :: name ++ '>' :: t) =
+      .groupName name :: steps isId python t := by
+  have := C12_braced_gen isId python name t
+    ⟨⟨'g', ['<'], rfl, by decide⟩, ⟨'>', [], rfl, hclose⟩, hne, hid⟩
+  simpa [python] using this
+
+/-- **`\N` takes the LONGEST digit run** (`Expander::python()`): `\10` is group 10, not group 1
+    followed by `0` -/
+theorem C12_num (ds rest : List Char) (hne : ds ≠ []) (hd : ∀ c ∈ ds, isDigit c = true)
+    (hv : digitsVal ds ≤ UNSET) (hfollow : ∀ c, rest.head? = some c → isDigit c = false) :
+    steps isId python ('\\' :: ds ++ rest) = .groupNum (digitsVal ds) :: steps isId python rest :=
+  C12_num_gen isId python ds rest ⟨rfl, by decide, ⟨'g', ['<'], rfl, by decide⟩, hne, hd, hv⟩ hfollow
+
+theorem C12_num_expansion (ds rest : List Char) (caps : Caps) (hne : ds ≠ [])
+    (hd : ∀ c ∈ ds, isDigit c = true) (hv : digitsVal ds ≤ UNSET)
+    (hfollow : ∀ c, rest.head? = some c → isDigit c = false) :
+    expansion isId python ('\\' :: ds ++ rest) caps =
+      (caps.get (digitsVal ds)).getD [] ++ expansion isId python rest caps := by
+  have h := C12_num isId ds rest hne hd hv hfollow
+  have := expansion_of_steps isId python (pre := [.groupNum (digitsVal ds)]) h caps
+  simpa [stepOut] using this
+
+/-- OBSERVATION (code behaviour the documentation does not describe): `\N` with `N > usize::MAX`
+    is not "an invalid group, replaced with the empty string" — the backslash and the digits are
+    copied verbatim (and `check` reports a parse error). `$N`, `${N}`, `\g<N>` with such an `N`
+    do insert nothing (`C12_longest_id` + `stepOut`). -/
+theorem C12_num_overflow_verbatim (ds rest : List Char) (caps : Caps) (hne : ds ≠ [])
+    (hd : ∀ c ∈ ds, isDigit c = true) (hv : digitsVal ds > UNSET)
+    (hfollow : ∀ c, rest.head? = some c → isDigit c = false) :
+    expansion isId python ('\\' :: ds ++ rest) caps = '\\' :: ds ++ expansion isId python rest caps := by
+  obtain ⟨n, ns, rfl⟩ := List.exists_cons_of_ne_nil hne
+  have hn : isDigit n = true := hd n (by simp)
+  have hs := run_split isDigit (n :: ns) rest hd hfollow
+  have hnr : NotRef isId python (n :: ns ++ rest) := by
+    refine ⟨?_, ?_, ?_, ?_⟩
+    · simp only [List.cons_append, List.head?_cons, ne_eq, Option.some.injEq]
+      intro e; rw [e] at hn; revert hn; decide
+    · have : ('g' : Char) ≠ n := by intro e; rw [← e] at hn; revert hn; decide
+      exact refAt_none_of_head isId _ _ _ _ _ this
+    · intro h; cases h
+    · simp only [numRef, hs.1]
+      rw [if_pos (Or.inr hv)]
+  have h1 := C12_not_reference isId python _ hnr
+  have hlit : ∀ c ∈ n :: ns, c ≠ python.subChar := by
+    intro c hc e
+    have := hd c hc
+    rw [e] at this; revert this; decide
+  rw [C12_literal_run isId python _ rest hlit] at h1
+  have h2 : steps isId python ('\\' :: (n :: ns) ++ rest) =
+      (.error :: .char '\\' :: (n :: ns).map Step.char) ++ steps isId python rest := h1
+  rw [expansion_of_steps isId python h2 caps]
+  have hm : ∀ l : List Char, (l.map Step.char).flatMap (stepOut caps) = l := by
+    intro l; induction l with
+    | nil => rfl
+    | cons c cs ih => simp [stepOut, ih]
+  simp [stepOut, hm]
+
+/-- **`\\` is a literal backslash** (`Expander::python()`) -/
+theorem C12_python_backslash (t : List Char) :
+    steps isId python ('\\' :: '\\' :: t) = .char '\\' :: steps isId python t :=
+  C12_escaped isId python t
+
+theorem C12_python_backslash_expansion (t : List Char) (caps : Caps) :
+    expansion isId python ('\\' :: '\\' :: t) caps = '\\' :: expansion isId python t caps := by
+  have := expansion_of_steps isId python (pre := [.char '\\']) (C12_python_backslash isId t) caps
+  simpa [stepOut] using this
+
+/-- `\g<` not followed by `name>` is copied verbatim (`Expander::python()`) -/
+theorem C12_python_unclosed (body : List Char)
+    (hbad : body.takeWhile isId = [] ∨ (body.dropWhile isId).head? ≠ some '>') :
+    steps isId python ('\\' :: 'g' :: '<' :: body) =
+      .error :: .char '\\' :: .char 'g' :: .char '<' :: steps isId python body := by
+  have := C12_unclosed_gen isId python 'g' ['<'] body rfl (by decide) (by decide)
+    (fun h => by cases h) (hbad.imp id (stripPrefix_none_of_head '>' [] _))
+  rw [← C12_literal isId python '<' body (by decide),
+    ← C12_literal isId python 'g' ('<' :: body) (by decide)]
+  simpa [python] using this
+
+/-- **relative references are NOT references in a template** (seeds C12a / C12c): `${-1}` and
+    `\g<-1>` are copied verbatim — `parse_id` is called with `allow_relative = false`, and `-` is
+    not an identifier character -/
+theorem C12_relative_not_reference (rest : List Char) (hopen : isId '{' = false)
+    (hminus : isId '-' = false) :
+    steps isId dollar ('$' :: '{' :: '-' :: rest) =
+      .error :: .char '$' :: .char '{' :: .char '-' :: steps isId dollar rest := by
+  rw [C12_braced_unclosed isId ('-' :: rest) hopen (Or.inl (by simp [hminus])),
+    C12_literal isId dollar '-' rest (by decide)]
+
+theorem C12_relative_not_reference_python (rest : List Char) (hminus : isId '-' = false) :
+    steps isId python ('\\' :: 'g' :: '<' :: '-' :: rest) =
+      .error :: .char '\\' :: .char 'g' :: .char '<' :: .char '-' :: steps isId python rest := by
+  rw [C12_python_unclosed isId ('-' :: rest) (Or.inl (by simp [hminus])),
+    C12_literal isId python '-' rest (by decide)]
+
+theorem C12_relative_not_reference_expansion (rest : List Char) (caps : Caps)
+    (hopen : isId '{' = false) (hminus : isId '-' = false) :
+    expansion isId dollar ('$' :: '{' :: '-' :: rest) caps =
+        '$' :: '{' :: '-' :: expansion isId dollar rest caps ∧
+    expansion isId python ('\\' :: 'g' :: '<' :: '-' :: rest) caps =
+        '\\' :: 'g' :: '<' :: '-' :: expansion isId python rest caps := by
+  constructor
+  · have := expansion_of_steps isId dollar (pre := [.error, .char '$', .char '{', .char '-'])
+      (C12_relative_not_reference isId rest hopen hminus) caps
+    simpa [stepOut] using this
+  · have := expansion_of_steps isId python
+      (pre := [.error, .char '\\', .char 'g', .char '<', .char '-'])
+      (C12_relative_not_reference_python isId rest hminus) caps
+    simpa [stepOut] using this
+
+end Documented
+
+/-! ## 5. Compositionality at token boundaries -/
+
+section Compositional
+variable (isId : Char → Bool) (x : Expander)
+
+/-- `Boundary isId x t2 t1`: **the end of `t1` is a token boundary of the documented syntax when
+    `t2` follows.** `t1` is a sequence of complete tokens —
+    literal characters, `$$`, `${name}`, `$name`, `\N`, or a substitution character that starts no
+    reference — where
+    * a bare `$name` must be followed (in `t1 ++ t2`) by the end or a NON-identifier character,
+    * a `\N` must be followed (in `t1 ++ t2`) by the end or a NON-digit,
+    * a substitution character that starts no reference in `t1` must not start one in `t1 ++ t2`
+      either (so `t1` may not end in a lone `$` if `t2` starts with `$`, `{name}`, a name or a
+      digit; nor in `${name` if `t2` supplies the `}`).
+    Complete `$$` and `${name}` tokens put no condition on what follows. -/
+inductive Boundary (t2 : List Char) : List Char → Prop
+  | nil : Boundary t2 []
+  | lit {c : Char} {t : List Char} : c ≠ x.subChar → Boundary t2 t → Boundary t2 (c :: t)
+  | esc {t : List Char} : Boundary t2 t → Boundary t2 (x.subChar :: x.subChar :: t)
+  | braced {name t : List Char} : IsBraced isId x name → Boundary t2 t →
+      Boundary t2 (x.subChar :: x.openD ++ name ++ x.closeD ++ t)
+  | bare {name t : List Char} : IsBare isId x name →
+      (∀ c, (t ++ t2).head? = some c → isId c = false) → Boundary t2 t →
+      Boundary t2 (x.subChar :: name ++ t)
+  | num {ds t : List Char} : IsNum x ds →
+      (∀ c, (t ++ t2).head? = some c → isDigit c = false) → Boundary t2 t →
+      Boundary t2 (x.subChar :: ds ++ t)
+  | bad {tail : List Char} : NotRef isId x tail → NotRef isId x (tail ++ t2) → Boundary t2 tail →
+      Boundary t2 (x.subChar :: tail)
+
+theorem follow_left {p : Char → Bool} {t t2 : List Char}
+    (h : ∀ c, (t ++ t2).head? = some c → p c = false) : ∀ c, t.head? = some c → p c = false := by
+  cases t with
+  | nil => intro c hc; cases hc
+  | cons a as => simpa using h
+
+/-- the steps of `t1 ++ t2` are the steps of `t1` followed by the steps of `t2` whenever the split
+    point is a token boundary -/
+theorem C12_steps_compositional (t1 t2 : List Char) (h : Boundary isId x t2 t1) :
+    steps isId x (t1 ++ t2) = steps isId x t1 ++ steps isId x t2 := by
+  induction h with
+  | nil => simp [steps_nil]
+  | lit hc _ ih =>
+    rw [List.cons_append, C12_literal isId x _ _ hc, C12_literal isId x _ _ hc, ih]; rfl
+  | esc _ ih =>
+    rw [List.cons_append, List.cons_append, C12_escaped, C12_escaped, ih]; rfl
+  | @braced name t hb _ ih =>
+    rw [List.append_assoc _ t t2, C12_braced_gen isId x name _ hb, C12_braced_gen isId x name _ hb, ih]
+    rfl
+  | @bare name t hb hf _ ih =>
+    rw [List.append_assoc _ t t2, C12_longest_id_gen isId x name _ hb hf,
+      C12_longest_id_gen isId x name _ hb (follow_left hf), ih]
+    rfl
+  | @num ds t hb hf _ ih =>
+    rw [List.append_assoc _ t t2, C12_num_gen isId x ds _ hb hf,
+      C12_num_gen isId x ds _ hb (follow_left hf), ih]
+    rfl
+  | @bad tail h1 h2 _ ih =>
+    rw [List.cons_append, C12_not_reference isId x _ h2, C12_not_reference isId x _ h1, ih]
+    rfl
+
+/-- **expansion is compositional at token boundaries** -/
+theorem C12_expansion_compositional (t1 t2 : List Char) (caps : Caps) (h : Boundary isId x t2 t1) :
+    expansion isId x (t1 ++ t2) caps = expansion isId x t1 caps ++ expansion isId x t2 caps := by
+  simp [expansion, C12_steps_compositional isId x t1 t2 h]
+
+theorem C12_check_compositional (t1 t2 : List Char) (r : RegexInfo) (h : Boundary isId x t2 t1) :
+    check isId x (t1 ++ t2) r = checkSteps r (steps isId x t1 ++ steps isId x t2) := by
+  rw [check, C12_steps_compositional isId x t1 t2 h]
+
+/-- literal text before a boundary keeps it a boundary -/
+theorem Boundary.of_literal {t2 t : List Char} (a : List Char) (ha : ∀ c ∈ a, c ≠ x.subChar)
+    (h : Boundary isId x t2 t) : Boundary isId x t2 (a ++ t) := by
+  induction a with
+  | nil => exact h
+  | cons c cs ih => exact .lit (ha c (by simp)) (ih (fun d hd => ha d (by simp [hd])))
+
+/-- the end of literal text is always a boundary -/
+theorem C12_compositional_literal (t1 t2 : List Char) (caps : Caps) (h1 : ∀ c ∈ t1, c ≠ x.subChar) :
+    expansion isId x (t1 ++ t2) caps = t1 ++ expansion isId x t2 caps := by
+  have hb : Boundary isId x t2 (t1 ++ []) := Boundary.of_literal isId x t1 h1 .nil
+  rw [List.append_nil] at hb
+  rw [C12_expansion_compositional isId x t1 t2 caps hb, C12_verbatim]
+  simp only [List.contains_eq_mem, decide_eq_false_iff_not]
+  exact fun hm => h1 _ hm rfl
+
+/-- the side condition in its most common form: `t1 = literal text ++ $name` ends inside a bare
+    reference, and the split is a boundary iff `t2` does not continue the name — here: `t2` is empty
+    or starts with a non-identifier character -/
+theorem C12_compositional_after_name (pre name t2 : List Char) (caps : Caps)
+    (hpre : ∀ c ∈ pre, c ≠ x.subChar) (hname : IsBare isId x name)
+    (hfollow : ∀ c, t2.head? = some c → isId c = false) :
+    expansion isId x ((pre ++ (x.subChar :: name)) ++ t2) caps =
+      expansion isId x (pre ++ (x.subChar :: name)) caps ++ expansion isId x t2 caps := by
+  apply C12_expansion_compositional
+  apply Boundary.of_literal isId x pre hpre
+  have : Boundary isId x t2 (x.subChar :: name ++ []) := .bare hname (by simpa using hfollow) .nil
+  simpa using this
+
+end Compositional
+
+/-- … and it FAILS when the split point is inside a token: `"$1" ++ "0"` is the (absent) group 10,
+    not group 1 followed by `0` -/
+theorem C12_expansion_not_compositional :
+    expansion demoId dollar ("$1".toList ++ "0".toList) demoCaps ≠
+      expansion demoId dollar "$1".toList demoCaps ++ expansion demoId dollar "0".toList demoCaps := by
+  decide
+
+/-- hence the end of `"$1"` is not a token boundary when `"0"` follows -/
+theorem C12_not_boundary : ¬ Boundary demoId dollar "0".toList "$1".toList := fun h =>
+  C12_expansion_not_compositional (C12_expansion_compositional demoId dollar _ _ demoCaps h)
+
+/-! ## 6. Every iteration consumes input; the fuel never runs out; slices are in range -/
+
+section Progress
+variable (isId : Char → Bool) (x : Expander)
+
+theorem stripPrefix_suffix {p s r : List Char} (h : stripPrefix p s = some r) : r <:+ s := by
+  rw [stripPrefix_eq_some] at h; subst h; exact List.suffix_append _ _
+
+theorem specRef_suffix (tail : List Char) : (specRef isId x tail).2 <:+ tail := by
+  unfold specRef
+  split
+  · exact List.suffix_refl _
+  · rename_i d rest
+    split
+    · exact List.suffix_cons _ _
+    · split
+      · rename_i name rest' h
+        unfold bracedRef refAt at h
+        split at h
+        · cases h
+        · rename_i body hb
+          split at h
+          · cases h
+          · split at h
+            · cases h
+            · rename_i r hr
+              cases h
+              exact (stripPrefix_suffix hr).trans
+                ((List.dropWhile_suffix isId).trans (stripPrefix_suffix hb))
+      · split
+        · rename_i name rest' h
+          split at h
+          · unfold bareRef at h
+            split at h
+            · cases h
+            · cases h; exact List.dropWhile_suffix _
+          · cases h
+        · split
+          · rename_i n rest' h
+            unfold numRef at h
+            split at h
+            · cases h
+            · cases h; exact List.dropWhile_suffix _
+          · exact List.suffix_refl _
+
+/-- **every iteration of `exec` emits at least one step and consumes at least one character**: it
+    continues on a suffix `rest` of `tail` (the text after the character just read), so the loop
+    terminates without fuel -/
+theorem C12_exec_consumes (c : Char) (tail : List Char) :
+    ∃ out rest, out ≠ [] ∧ rest <:+ tail ∧ rest.length < (c :: tail).length ∧
+      ∀ fuel, exec isId x (fuel + 1) (c :: tail) = out ++ exec isId x fuel rest := by
+  by_cases hc : c = x.subChar
+  · refine ⟨(specRef isId x tail).1, (specRef isId x tail).2, ?_, specRef_suffix isId x tail, ?_, ?_⟩
+    · unfold specRef
+      split
+      · simp
+      · split
+        · simp
+        · split
+          · simp
+          · split
+            · simp
+            · split <;> simp
+    · have := (specRef_suffix isId x tail).length_le
+      simp only [List.length_cons]; omega
+    · intro fuel; rw [exec_succ_cons, if_pos hc]
+  · refine ⟨[.char c], tail, by simp, List.suffix_refl _, by simp, ?_⟩
+    intro fuel; rw [exec_succ_cons, if_neg hc]; rfl
+
+/-- **the fuel of the model is never the reason to stop**: any fuel ≥ the template length gives the
+    same (documented) steps -/
+theorem C12_exec_fuel_irrelevant (t : List Char) (f1 f2 : Nat) (h1 : t.length ≤ f1) (h2 : t.length ≤ f2) :
+    exec isId x f1 t = exec isId x f2 t := by
+  rw [exec_eq_spec isId x f1 t h1, exec_eq_spec isId x f2 t h2]
+
+/-- **`tail[skip..]` is in range** (`parse_id` as the expander calls it; for `parse_decimal` see
+    `C06_parse_decimal_bound`), and it is the text after the documented token -/
+theorem C12_skip_in_bounds (s o k id : List Char) (skip : Nat)
+    (h : parseId isId s o k false = some (id, skip)) :
+    skip ≤ s.length ∧ refAt isId o k s = some (id, s.drop skip) := by
+  refine ⟨?_, by rw [← parseId_spec, h]; rfl⟩
+  unfold parseId at h
+  simp only [idCharsOf_false, closeOk_eq, drop_length_takeWhile] at h
+  split at h
+  · cases h
+  · rename_i hpre
+    split at h
+    · cases h
+    · rename_i hcond
+      cases h
+      simp only [Bool.not_eq_true', Bool.not_eq_false, Bool.or_eq_true, not_or] at hpre hcond
+      have hpre' : o.isPrefixOf s = true := by simpa using hpre
+      have hk : k.isPrefixOf ((s.drop o.length).dropWhile isId) = true := by simpa using hcond.1
+      have h1 := stripPrefix_length (p := o) (s := s) (r := s.drop o.length)
+        (by rw [stripPrefix_model, if_pos hpre'])
+      have h2 := stripPrefix_length (p := k) (s := (s.drop o.length).dropWhile isId)
+        (r := ((s.drop o.length).dropWhile isId).drop k.length) (by rw [stripPrefix_model, if_pos hk])
+      have h3 : ((s.drop o.length).takeWhile isId).length + ((s.drop o.length).dropWhile isId).length
+          = (s.drop o.length).length := by
+        rw [← List.length_append, List.takeWhile_append_dropWhile]
+      omega
+
+end Progress
+
+/-! ## 7. Concrete instances (non-vacuity; `demoId` = ASCII alphanumerics and `_`) -/
+
+-- the documented tokenizer itself, on a template with every token form
+example : steps demoId dollar "a$$${x}$1a $2.$-".toList =
+    [.char 'a', .char '$', .groupName "x".toList, .groupName "1a".toList, .char ' ',
+     .groupName "2".toList, .char '.', .error, .char '$', .char '-'] := by decide
+example : specSteps demoId dollar "$x.".toList = [.groupName "x".toList, .char '.'] := by
+  rw [← C12_steps_eq_spec]; decide
+-- `C12_longest_id`: hypotheses hold for `$ab` followed by `-c`
+example : steps demoId dollar ('$' :: "ab".toList ++ "-c".toList) =
+    .groupName "ab".toList :: steps demoId dollar "-c".toList :=
+  C12_longest_id demoId "ab".toList "-c".toList (by decide) (by decide) (by decide) (by decide) (by decide)
+-- `C12_numbered_name`: `$1` with no group called "1" is group number 1
+example : stepOut demoCaps (.groupName "1".toList) = "a".toList :=
+  C12_numbered_name demoCaps "1".toList (by decide) (by decide) (by decide) (by decide)
+-- `C12_braced`, `C12_braced_unclosed` (unclosed, empty, space inside)
+example : steps demoId dollar ('$' :: '{' :: "x1".toList ++ '}' :: "y".toList) =
+    .groupName "x1".toList :: steps demoId dollar "y".toList :=
+  C12_braced demoId "x1".toList "y".toList (by decide) (by decide) (by decide)
+example : expansion demoId dollar "${x".toList demoCaps = "${x".toList := by decide
+example : expansion demoId dollar "${}".toList demoCaps = "${}".toList := by decide
+example : expansion demoId dollar "${x y}".toList demoCaps = "${x y}".toList := by decide
+-- `C12_num`: `\10` is group 10 (absent: nothing), `\1` is group 1, `\g<1>`, `\g<x>`
+example : steps demoId python ('\\' :: "10".toList ++ "a".toList) =
+    .groupNum 10 :: steps demoId python "a".toList :=
+  C12_num demoId "10".toList "a".toList (by decide) (by decide) (by decide) (by decide)
+example : expansion demoId python "\\10|\\1|\\g<1>|\\g<x>".toList demoCaps = "|a|a|a".toList := by decide
+-- `C12_num_overflow_verbatim`: 2^64 is not a `usize`
+example : expansion demoId python "\\18446744073709551616".toList demoCaps =
+    "\\18446744073709551616".toList := by decide
+-- `C12_relative_not_reference`
+example : expansion demoId dollar "${-1}".toList demoCaps = "${-1}".toList := by decide
+example : expansion demoId python "\\g<-1>".toList demoCaps = "\\g<-1>".toList := by decide
+example : check demoId dollar "${-1}".toList ⟨3, []⟩ = .error .parseError := by rfl
+-- `C12_expansion_compositional`: `"$1"` followed by `" 0"` IS a boundary (a space follows the name)
+example : Boundary demoId dollar " 0".toList "$1".toList :=
+  .bare (name := "1".toList) (t := []) ⟨rfl, by decide, ⟨'{', [], rfl, by decide⟩, by decide, by decide⟩
+    (by decide) .nil
+example : expansion demoId dollar ("$1".toList ++ " 0".toList) demoCaps =
+    expansion demoId dollar "$1".toList demoCaps ++ expansion demoId dollar " 0".toList demoCaps := by decide
+-- `C12_exec_fuel_irrelevant` / `C12_skip_in_bounds`
+example : exec demoId dollar 3 "$x".toList = exec demoId dollar 100 "$x".toList :=
+  C12_exec_fuel_irrelevant demoId dollar _ 3 100 (by decide) (by decide)
+example : parseId demoId "{ab}c".toList ['{'] ['}'] false = some ("ab".toList, 4) := by decide
+
 end Fancy.Expand
